@@ -71,6 +71,9 @@ pub fn classify_xz(c: &XzCase, spec: &XzSpec, file: &XzFile, st: &mut LocalStats
         1 => "blocks:1",
         _ => "blocks:>=2",
     });
+    if c.blocks.len() >= 128 {
+        st.class("blocks:>=128 (2-byte record count)");
+    }
     st.class(match c.check {
         0 => "check:none",
         1 => "check:crc32",
@@ -116,14 +119,16 @@ impl Property for C03 {
     fn strategy(&self, tier: Tier) -> BoxedStrategy<AbsXz> {
         match tier {
             Tier::Quick => prop_oneof![
-                12 => abs_xz(5, 3, 20, 300_000),
-                1 => abs_xz(2, 3, 20, 3 << 20),
+                24 => abs_xz(5, 3, 20, 300_000),
+                2 => abs_xz(2, 3, 20, 3 << 20),
+                1 => abs_xz_many_blocks(),
             ]
             .boxed(),
             Tier::Thorough => prop_oneof![
-                12 => abs_xz(6, 4, 30, 300_000),
-                2 => abs_xz(40, 2, 10, 100_000),
-                1 => abs_xz(3, 3, 20, 3 << 20),
+                24 => abs_xz(6, 4, 30, 300_000),
+                4 => abs_xz(40, 2, 10, 100_000),
+                2 => abs_xz(3, 3, 20, 3 << 20),
+                1 => abs_xz_many_blocks(),
             ]
             .boxed(),
         }
@@ -159,6 +164,7 @@ impl Property for C03 {
             ("indexpad:2", 500 * m),
             ("indexpad:3", 500 * m),
             ("vli:unpadded 3B", 20 * m),
+            ("blocks:>=128 (2-byte record count)", 300 * m),
             ("vli:unpacked 3B", 20 * m),
         ]
     }
